@@ -104,8 +104,11 @@ def expected_terms(kind, heavy, th, ob, Q2):
         comps.append(("massive", HEAVY[heavy]))
 
     for c, h in comps:
-        if c == "massive":
-            skip.update({h, -h})  # intrinsic rows
+        # (unpolarised kinds only: no intrinsic polarised heavy quark exists in either massive scheme, those rows stay unjudged)
+        asy = c == "massive" and "FFN0" in th["FNS"] and kind in ("F2", "FL", "F3")
+        if c == "massive" and not asy:
+            skip.update({h, -h})  # intrinsic rows of a massive quark: mass-dependent kinematic factors, outside the parton-model statement
+        # (in the asymptotic schemes the heavy quark's own rows are the massless limit: the plain parton model, judged below)
         if process == "CC":
             v2 = ew.ckm2(th["CKM"])
             if c == "light":
@@ -123,7 +126,7 @@ def expected_terms(kind, heavy, th, ob, Q2):
                 pref = {"F2": 1.0, "FL": 1.0 - lam, "F3": lam}[kind]
             elif kind in ew.LO_VANISHING:
                 continue  # massless (and asymptotic, m->0) limit: Callan-Gross
-            for q in qs:
+            for q in list(qs) + ([h] if asy else []):
                 w = ew.cc_weight(q, v2 * mask) * pref
                 p = ew.cc_parton(q, proj)
                 if pv and p < 0:
@@ -131,7 +134,7 @@ def expected_terms(kind, heavy, th, ob, Q2):
                 if w != 0.0:
                     terms.append((p, w, chi))
         else:
-            if c == "massive" or kind in ew.LO_VANISHING:
+            if (c == "massive" and not asy) or kind in ew.LO_VANISHING:
                 continue  # NC heavy production starts at NLO; FL, gL vanish at LO
             qs = range(1, nf + 1) if c == "light" else [h]
             for q in qs:
